@@ -97,6 +97,7 @@ def main() -> int:
     rep = Report(pid, args.tier)
     try:
         model = Model(os.path.join(args.repo, "src") if args.repo else None)
+        rep.model = model
         rep.stats["files_parsed"] = model.files_parsed
         rep.stats["source_digest"] = model.digest()
         mod.run(model, rep, args.tier)
